@@ -217,7 +217,7 @@ def cells_C18(tier, consts):
                   enforce="round_pow2", unwind=w + 2,
                   extra_checks=["--unsigned-overflow-check", "--conversion-check"],
                   closes_loops="unwinding to type width W+2 with unwinding assertion (complete)", replay="numeric")
-        cells.append(Cell("round_pow2.u%d" % w, "numeric", "h_round_pow2", defines={"T": t, "W": w},
+        cells.append(Cell("round_pow2.u%d" % w, "numeric", "h_round_pow2", defines={"T": t, "W": w, "VERIF_USE_LOOP_CONTRACTS": 1},
                           enforce="round_pow2", loop_contracts=True, fallback=fb,
                           extra_checks=["--unsigned-overflow-check", "--conversion-check"],
                           closes_loops="loop contract (invariant + decreases): unbounded", replay="numeric"))
@@ -433,7 +433,7 @@ def array_io_cells(tier, parts):
         wcombos = [(1, "float"), (1, "double"), (3, "float"), (3, "double")]
     if "read" in parts:
         for m, t, fl in rcombos:
-            d = {"DIMS_OUT": m, "OUT_SCALAR_T": t}
+            d = {"DIMS_OUT": m, "OUT_SCALAR_T": t, "VERIF_USE_LOOP_CONTRACTS": 1}
             cells.append(Cell("io.array.read.M%d.%s.%s" % (m, t, fl), "array_io", "h_array_read_binary", defines=d, flavour=fl,
                               enforce="array_read_binary", replace=READ_CALLEES, loop_contracts=True,
                               unwindset=["array_read_binary.0:%d" % (m + 1)], object_bits=12, backends=(("sat", 1500),), split=7,
@@ -441,7 +441,7 @@ def array_io_cells(tier, parts):
                               note="both on-disk widths (4 and 8) in one cell: widening is exact, narrowing is the cast's round-to-nearest", replay=None))
     if "write" in parts:
         for m, t in wcombos:
-            d = {"DIMS_OUT": m, "OUT_SCALAR_T": t}
+            d = {"DIMS_OUT": m, "OUT_SCALAR_T": t, "VERIF_USE_LOOP_CONTRACTS": 1}
             cells.append(Cell("io.array.write.M%d.%s" % (m, t), "array_io", "h_array_write_binary", defines=d,
                               enforce="array_write_binary", replace=WRITE_CALLEES, loop_contracts=True,
                               unwindset=["array_write_binary.0:%d" % (m + 1)], object_bits=12, backends=(("sat", 1500),), split=7,
@@ -876,7 +876,7 @@ def cells_C05(tier, consts):
         cells.append(Cell("copy.strided.elem.N%d.M%d" % (n, m), "copy@L=1,N=%d" % n, "h_strided_copy_elem", defines=d, enforce="strided_copy_elem",
                           unwind=6, object_bits=10, backends=(("sat", 600), ("cadical", 600)), kind="bounded", bound="every extent <= 16 (row-major bound is nonlinear, see C01)",
                           closes_loops="unwinding to the template constants N, M (complete)", replay="copy"))
-    for k in range(0, 5 if tier == "quick" else 8):
+    for k in range(0, 5 if tier == "quick" else 7):
         for m, t in ((1, "float"), (3, "double")):
             d = {"COPY_LAYER": 3, "DIMS_IN": 2, "DIMS_OUT": m, "OUT_SCALAR_T": t, "HILBERT_K": k}
             cells.append(Cell("copy.hilbert.elem.k%d.M%d" % (k, m), "copy@L=3,N=2", "h_hilbert_copy_elem", defines=d, enforce="hilbert_copy_elem",
